@@ -255,8 +255,10 @@ class CircuitTemplate(AbstractBaseTemplate):
 
         # either create new instance with updates or store updates on current template instance
         if not in_place:
+            # (populations and connections are not subject to updates, but they are part of the template)
             return self.__class__(name=name, path=path, description=description, circuits=circuits, nodes=nodes,
-                                  edges=edges)
+                                  edges=edges, populations=dict(self.populations) or None,
+                                  connections=list(self.connections) or None)
         self.name = name
         self.path = path
         self.__doc__ = description
